@@ -74,6 +74,37 @@ theorem dec_any_j5 (c : Cfg) (hmode : c.protoToAny = false) (props : List PropDe
     Option.isSome_none, Bool.false_eq_true, hpop]
   simp [finishAnyProp, Outcome.bind, hmode, closeOk]
 
+/-- … and with the two members in the other order -/
+theorem dec_any_j5_rev (c : Cfg) (hmode : c.protoToAny = false) (props : List PropDef) (p : PropDef)
+    (st : PS) (tn : Bytes) (tlit nlit vlit : Bytes) (tv : PTree)
+    (hf : p.field = .any false) (hp : p.path ≠ []) (hs : p.jsonName ∉ st.seen)
+    (hgb : groupBusy props p st.m = false) (hc : tv.complete = true) (hd : tv.depth ≤ 10000) :
+    decProp c props p
+        (.obj (.cons valueKey vlit tv (.cons typeKey tlit (.str tn nlit) (.nil .closed)))) st =
+      .ok { m := updPath props p (some (.anyJ5 tn [] tv.render .none "" (.msg []))) st.m,
+            seen := p.jsonName :: st.seen } := by
+  have hne : p.path.isEmpty = false := by
+    cases hpp : p.path with
+    | nil => exact absurd hpp hp
+    | cons a b => rfl
+  have hpop : popValueAsBytes tv = some tv.render := by
+    unfold popValueAsBytes; simp [hc, hd]
+  have hvk : ascii "value" ≠ ascii "!type" := by decide
+  unfold decProp; rw [hf]
+  simp only [createField_fresh props p st hs hgb, Outcome.bind, hne, Bool.false_eq_true, if_false]
+  simp only [decAnyMembers, typeKey, valueKey, if_true, hvk, if_false, ne_eq, not_true_eq_false,
+    Option.isSome_none, Bool.false_eq_true, hpop]
+  simp [finishAnyProp, Outcome.bind, hmode, closeOk]
+
+theorem Dec_any_rev (c : Cfg) (hmode : c.protoToAny = false) (tn tlit nlit vlit : Bytes) (tv : PTree)
+    (hc : tv.complete = true) (hd : tv.depth ≤ 10000) :
+    Dec c (.any false) (.anyJ5 tn [] tv.render .none "" (.msg []))
+      (.obj (.cons valueKey vlit tv (.cons typeKey tlit (.str tn nlit) (.nil .closed)))) where
+  prop := fun props p st hf hp hs _ hgb =>
+    dec_any_j5_rev c hmode props p st tn tlit nlit vlit tv hf hp hs hgb hc hd
+  elem := fun h => by simp [itemSimple] at h
+  mapv := fun h => by simp [itemSimple] at h
+
 /-- a framed value `{"!type": tn, "value": V}` decodes (codec without `WithProtoToAny`) to the j5
 `Any` that holds the compact bytes of `V`, in the only decoding context an `Any` can stand in
 (property value; arrays / maps of `Any` are not supported by the codec) -/
